@@ -192,7 +192,9 @@ def run(ctx: lib.Ctx) -> None:
                 'boundaries up to 2^600, optional fields present/absent, explicit default/Unit parameters; systematic sweep of entrypoint x '
                 'destination kind and kind x source curve; recorded mainnet groups. non-trivial = at least one manager content; '
                 'distinct = distinct JSON group')
-    problems = tables(ctx)
+    import concurrent.futures
+    pool = concurrent.futures.ThreadPoolExecutor(max_workers=1)
+    fut_tables = pool.submit(tables, ctx)   # coqc on the tables runs while the implementation is exercised
 
     groups = []
     for p in sorted(glob.glob(os.path.join(lib.VERIF, 'corpus', PROP, '*.json'))):
@@ -202,7 +204,7 @@ def run(ctx: lib.Ctx) -> None:
     for name, doc in recorded:
         groups.append(('recorded:' + name, {'branch': doc['branch'], 'contents': [strip_meta(c) for c in doc['contents']]}))
     groups += [('systematic', g) for g in systematic_groups(rng)]
-    n_total = ctx.n(800, 12000)
+    n_total = ctx.n(800, 8000)
     while len(groups) < n_total:
         g = gen_group(rng)
         groups.append(('random', g))
@@ -256,7 +258,9 @@ def run(ctx: lib.Ctx) -> None:
             ctx.violation(why, replay_doc(g, raw), found=True)
     ctx.extra['recorded_mainnet_groups'] = [n for n, _ in recorded]
 
-    bad = ctx.coq_mismatches('groups', IMPORTS, 'check_group', 'check_eqb', 'group', 'bytes * bool * bool * bool', cases, shard=ctx.n(50, 100))
+    bad = ctx.coq_mismatches('groups', IMPORTS, 'check_group', 'check_eqb', 'group', 'bytes * bool * bool * bool', cases, shard=ctx.n(70, 120))
+    problems = fut_tables.result()
+    pool.shutdown()
     if reported == 0 and (bad or problems):
         rep = {'correspondence': 'C06/forge_operation_group vs Codec.Ops.forge_operation_group (= enc_group)', 'disagreements': len(bad),
                'tables': problems}
